@@ -46,6 +46,8 @@ const (
 	AHost2                 // (r0,r1) = host2(acc): a host function with more results than parameters; acc = r0 + r1
 	AClock                 // clock_time_get(A: 0 realtime, 1 monotonic): acc += errno*1000 + low 32 bits of the reading (WASI atoms, C11 only)
 	ARandom                // random_get(4 bytes): acc += errno*1000 + the word (WASI atoms, C11 only)
+	ALoop                  // a counted loop of three iterations (a loop header in the function): acc += 3
+	ABrIfRet               // if acc == A { return acc } written as br_if to the function's own label (mostly NOT taken)
 )
 
 const (
@@ -83,7 +85,7 @@ type Atom struct {
 }
 
 func (a Atom) String() string {
-	n := []string{"store", "storeacc", "loadacc", "gadd", "call", "callimp", "calli", "host", "trap", "grow", "rec", "tableset", "exit", "meminit", "datadrop", "tableinit", "elemdrop", "tailcall", "stdout", "open", "close", "callgref", "atomicadd", "wide", "farstore", "farload", "readdir", "host2", "clock", "random"}[a.K]
+	n := []string{"store", "storeacc", "loadacc", "gadd", "call", "callimp", "calli", "host", "trap", "grow", "rec", "tableset", "exit", "meminit", "datadrop", "tableinit", "elemdrop", "tailcall", "stdout", "open", "close", "callgref", "atomicadd", "wide", "farstore", "farload", "readdir", "host2", "clock", "random", "loop", "brifret"}[a.K]
 	return fmt.Sprintf("%s(%d,%d)", n, a.A, a.B)
 }
 
@@ -150,6 +152,7 @@ type Opts struct {
 	Wide               bool // the multi-value mixed-type function
 	ReaddirHeavy       bool // WASI: many fd_readdir atoms
 	Host2              bool // env.h2: (i32) -> (i32, i32), pure; the embedder must export it
+	Loopy              bool // many loop atoms: exit-code checks at loop headers when close-on-context-done is on
 }
 
 // Generate draws a plan from the tape.
@@ -168,9 +171,12 @@ func Generate(t *tape.Tape, o Opts) *Plan {
 		for j := 0; j < na; j++ {
 			val++
 			// weights: store, storeacc, loadacc, gadd, call, callimp, calli, host, trap, grow, rec, tableset, exit, meminit, datadrop, tableinit, elemdrop, tailcall
-			w := []int{4, 3, 2, 3, 4, 0, 0, 0, 0, 0, 0, 0, 0, 0, 0, 0, 0, 0, 0, 0, 0, 0, 0, 0, 0, 0, 0, 0, 0, 0}
+			w := []int{4, 3, 2, 3, 4, 0, 0, 0, 0, 0, 0, 0, 0, 0, 0, 0, 0, 0, 0, 0, 0, 0, 0, 0, 0, 0, 0, 0, 0, 0, 2, 2}
 			if o.Wide {
 				w[AWide] = 2
+			}
+			if o.Loopy {
+				w[ALoop] = 12
 			}
 			if o.Host2 {
 				w[AHost2] = 2
@@ -257,6 +263,8 @@ func Generate(t *tape.Tape, o Opts) *Plan {
 				a.A = int32(t.Choose(3))
 			case AClock:
 				a.A = int32(t.Choose(2))
+			case ABrIfRet:
+				a.A = int32(t.Choose(40)) // arguments are small numbers: sometimes taken
 			case AReaddir:
 				// buffer sizes from "not even one header" to several entries; cookies computed, not returned
 				a.A, a.B = int32(tape.Pick(t, []int{24, 40, 64, 100})), int32(t.Choose(3))
@@ -426,6 +434,13 @@ func (p *Plan) Encode() []byte {
 				rd(256)
 			case AHost2:
 				c.LocalGet(1).Call(l.Host2).I32Add().LocalSet(1)
+			case ALoop:
+				c.I32Const(0).LocalSet(2).Loop(wasmb.BlockVoid).
+					LocalGet(2).I32Const(1).I32Add().LocalTee(2).I32Const(3).I32LtU().BrIf(0).End().
+					LocalGet(1).I32Const(3).I32Add().LocalSet(1)
+			case ABrIfRet:
+				// (atoms are emitted at the top level of the function body: label 0 is the function's)
+				c.LocalGet(1).LocalGet(1).I32Const(a.A).I32Eq().BrIf(0).Drop()
 			case AClock:
 				c.I32Const(a.A).I64Const(1).I32Const(0x3e0).Call(l.ClockTimeGet).I32Const(1000).I32Mul().
 					I32Const(0x3e0).I32Load(0).I32Add().LocalGet(1).I32Add().LocalSet(1)
